@@ -131,7 +131,12 @@ class HandlerContract(FContract):
                         lambda A: pm.BufPostS(A['src'])),
                        ('parser', lambda A: A['parser'],
                         lambda A: pm.ParserS(A['src']))],
-            free=free)
+            free=free,
+            olds=lambda A: {'nflows0': A['parser'].fields[
+                'extracted'].length()})
+        self.ensures.append(('flows-only-grow', lambda A, r: zint(
+            A['parser'].fields['extracted'].length()) >=
+            zint(A['old']['nflows0'])))
 
     def setup(self, ex, st):
         A = super().setup(ex, st)
@@ -317,4 +322,7 @@ def register(T, repo):
                                    None, 'descr'),
             post_objs=[('parser', lambda A: A['parser'],
                         lambda A: pm.ParserS(A['src']))]))
+    for nm in ('get_tokens', 'modify_description'):
+        if T.get(G + nm) is not None:
+            T.add_flows_grow(T.get(G + nm), 'parser')
     return T
